@@ -247,19 +247,17 @@ Definition check (t : term) : term :=
           let sterms := map (term_of_res hashing) sres in
           let same := list_eqb res_eqb mres sres in
           let mterms := if same then sterms else map (term_of_res hashing) mres in
-          let sfinal := canon_set (s_cur ss) in
           let mfinal := t_root (m_cur ms) in
-          let sroot := if hashing then root_hash sha512_256 sfinal else [] in
-          let mroot := if hashing then (if otrie_eqb mfinal sfinal then sroot else root_hash sha512_256 mfinal) else [] in
+          (* [root] is the digest returned by the last op of the sequence (always (h)) when the run
+             was not cut short by a storage error, so it is compared with the canonical hash of
+             the final set through [obs'] = [sterms] when hashing *)
           let spec_ok :=
             term_eqb (TL obs') (TL sterms)                      (* membership answers, errors, digests *)
-            && list_eqb N.eqb root fresh                        (* history independence on the implementation itself *)
-            && (negb hashing || list_eqb N.eqb root sroot) in   (* = canonical hash of the set *)
+            && list_eqb N.eqb root fresh in                     (* history independence on the implementation itself *)
           let corr :=
             term_eqb (TL obs') (TL mterms)
-            && (negb hashing || list_eqb N.eqb root mroot)
-            && term_eqb shape (term_of_otrie mfinal) in
-          let detail := TL [TL mterms; term_of_otrie mfinal; TB mroot] in
+            && term_eqb shape (term_of_otrie mfinal) in         (* the stored trie is the model's trie *)
+          let detail := TL [TL mterms; term_of_otrie mfinal] in
           if (negb spec_ok || negb corr) && Z.eqb dropped 1 &&
              (ends_ioerr obs' sterms || (term_eqb (TL obs') (TL sterms) && has_ioerr shape))
           then v_known "evict_drops_partial_last_page" detail
